@@ -2,6 +2,7 @@ use crate::report::{Ctx, Report};
 use serde_json::Value as J;
 
 pub mod c01;
+pub mod c05;
 pub mod c14;
 pub mod c04;
 pub mod c07;
@@ -25,6 +26,7 @@ pub fn run(ctx: &Ctx, rep: &mut Report) -> bool {
     crate::node::record_panic_locations();
     match ctx.property.as_str() {
         "C01" => c01::run(ctx, rep),
+        "C05" => c05::run(ctx, rep),
         "C14" => c14::run(ctx, rep),
         "C04" => c04::run(ctx, rep),
         "C07" => c07::run(ctx, rep),
@@ -52,6 +54,7 @@ pub fn replay(ctx: &Ctx, prop: &str, engine: &str, case: &J) -> Result<Option<(S
     crate::node::record_panic_locations();
     match prop {
         "C01" => c01::replay(ctx, engine, case),
+        "C05" => c05::replay(ctx, engine, case),
         "C14" => c14::replay(ctx, engine, case),
         "C04" => c04::replay(ctx, engine, case),
         "C07" => c07::replay(ctx, engine, case),
